@@ -246,27 +246,40 @@ def r11_generic(db, ctx):
     if len(st) != 1 or len(acc) != 1:
         ctx.fail('R1.1', f, 'generic kernel', f'reason=unrecognised-shape: {len(st)} cell stores, {len(acc)} accumulations')
         return
-    tg = norm(st[0]['target'])
-    b = m(('idx', ('call~', 'index_mut', ('$res', ('fld', ('elem', ('call~', 'enumerate', ('$rows',)), '$L'), '0'))), ('elem', ('agg', '_', (('k', 0), '$C')), '$Lc')), tg)
-    if b is None or norm(b['$rows']) != ('p', 4) or 'USIZE' not in X.canon(b['$C']):
+    # decided on the loop-form independent element form (lm/iteralg.py): rows.enumerate() or a counted loop with rows.start + r, index loops or iterators
+    from lm import iteralg
+    CA = iteralg.Canon(f, R)
+    tg = CA.canon(st[0]['target'])
+    av = CA.canon(R.operand(acc[0][1]['args'][1]))
+    b = m(('at', ('at', '$res', '$r'), '$c'), tg)
+    bv = m(('at', ('at', '$pssm', '$j'), ('call~', 'as_index', (('at', ('at', ('call~', 'StripedSequence::matrix', ('$seq',)), '$row'), '$c2'),))), av)
+    if b is None or not (iteralg.is_pos(b['$r']) and iteralg.is_pos(b['$c'])) or m(('call~', 'StripedScores::matrix_mut', ('_',)), b['$res']) is None:
         probs.append(f'result cell is {X.show(tg, 120)}: expected result[position in rows][col] for col in 0..C')
-    av = norm(R.operand(acc[0][1]['args'][1]))
-    # pssm_row[ seq.matrix()[seq_row + j][col].as_index() ]
-    pat = ('idx', ('fld', ('elem', ('call~', 'enumerate', (('call~', 'DenseMatrix::iter', ('$pssm',)),)), '$Lj'), '1'),
-           ('call~', 'as_index', (('idx', ('call~', '::index', (('call~', 'StripedSequence::matrix', ('$seq',)), '$row')), '$col'),)))
-    bv = m(pat, av)
-    if bv is None:
+    if bv is None or not iteralg.is_pos(bv['$j']):
         probs.append(f'accumulated term is {X.show(av, 160)}: expected pssm_row[seq.matrix()[seq_row + j][col].as_index()]')
-    elif b is not None:
-        row = bv['$row']
-        want = ('bin', 'Add', ('fld', ('elem', b['$rows'] if False else ('call', 'core::iter::traits::iterator::Iterator::enumerate', (b['$rows'],)), b['$L']), '1'),
-                ('fld', ('elem', ('call', 'core::iter::traits::iterator::Iterator::enumerate', (('call', 'lightmotif::dense::DenseMatrix::iter', (bv['$pssm'],)),)), bv['$Lj']), '0'))
-        l = X.lin(row)
-        ks = sorted(l)
-        if not (len(l) == 2 and all(v == 1 for v in l.values()) and any('.1' in k and 'arg4' in k for k in ks) and any('.0' in k and 'DenseMatrix::iter' in k for k in ks)):
-            probs.append(f'sequence row is {X.show(row, 120)}: expected (element of rows) + j')
-        if bv['$col'] != tg[2]:
+    if b is not None and bv is not None and not probs:
+        Lr, Lc, Lj = b['$r'][1], b['$c'][1], bv['$j'][1]
+        if bv['$c2'] != b['$c']:
             probs.append('the column read differs from the column written')
+        # sequence row = (element of `rows` at the position written) + j
+        l = X.lin(bv['$row'])
+        pr, pj = X.canon(('pos', Lr)), X.canon(('pos', Lj))
+        rest = {k: v for k, v in l.items() if k not in (pr, pj) and v != 0}
+        rows_param = None
+        for c_ in CA.extents.get(Lr, []):
+            if c_[0] == 'len':
+                rows_param = c_[1]
+            elif c_[0] == 'sub' and c_[2] == ('k', 0) and c_[1][0] == 'call' and c_[1][1].endswith('::len') and len(c_[1][2]) == 1:
+                rows_param = norm(c_[1][2][0])
+        start_ok = rows_param is not None and rest == X.lin(('fld', rows_param, 'start'))
+        if not (l.get(pr) == 1 and l.get(pj) == 1 and start_ok):
+            probs.append(f'sequence row is {X.show(bv["$row"], 120)}: expected (element of rows) + j')
+        if rows_param is None or rows_param[0] != 'p' or not f.local_ty(rows_param[1]).startswith('core::ops::range::Range<'):
+            probs.append('result rows are not one per element of the `rows` range')
+        if not all(c_[0] == 'sub' and c_[2] == ('k', 0) and common.is_usize_const(c_[1], 'C') for c_ in CA.extents.get(Lc, [('?',)])):
+            probs.append(f'columns visited: {CA.extents.get(Lc)}, expected 0..C')
+        if CA.extents.get(Lj) != [('rows', bv['$pssm'])] and not all(c_[0] == 'sub' and c_[2] == ('k', 0) and common.is_call_on(c_[1], 'DenseMatrix::rows', bv['$pssm']) for c_ in CA.extents.get(Lj, [('?',)])):
+            probs.append(f'motif rows visited: {CA.extents.get(Lj)}, expected every row of the matrix')
     # accumulator reset per (row, col): score = T::default() inside the col loop
     if probs:
         ctx.fail('R1.1', f, 'generic kernel', '; '.join(probs))
